@@ -129,6 +129,7 @@ fn check_root(neg: bool, a: &[u64], n: u32) -> Verdict {
         .class_if(n as u64 >= bits && n > 0, "degree_ge_bit_length")
         .class_if(r.neg, "negative")
         .class_if(n == 0, "zeroth_root")
+        .class_if(r.neg, "even_root_of_negative")
         .class_if(n >= 1000, "huge_degree"))
 }
 
